@@ -59,7 +59,11 @@ class LocalControl(Control):
     def __init__(self, server_id: Optional[int] = None):
         self._connection_seq = seq(self._MAX_CONNECTION_SEQ)
         self._connections: Dict[int, Connection] = {}
-        self.server_id = server_id or random.randint(0, self._MAX_SERVER_ID - 1)
+        self.server_id = (
+            server_id
+            if server_id is not None
+            else random.randint(0, self._MAX_SERVER_ID - 1)
+        )
 
     async def add(self, connection: Connection) -> int:
         connection_id = self._new_connection_id()
